@@ -40,6 +40,7 @@ def validate_graph(
     _validate_graph_name(graph_name)
     _validate_reserved_names(nodes)
     _validate_valid_identifiers(nodes)
+    _validate_distinct_outputs_per_node(nodes)
     _validate_no_namespace_collision(nodes)
     _validate_consistent_defaults(nodes)
     _validate_gate_targets(nodes)
@@ -105,6 +106,21 @@ def _validate_output_identifiers(node: HyperNode) -> None:
                 f"How to fix:\n"
                 f"  Use a different name (e.g., '{output}_value' or '{output}_result')"
             )
+
+
+def _validate_distinct_outputs_per_node(nodes: dict[str, HyperNode]) -> None:
+    """A node cannot declare the same output name twice."""
+    for node in nodes.values():
+        seen: set[str] = set()
+        for output in node.outputs:
+            if output in seen:
+                raise GraphConfigError(
+                    f"Duplicate output name: '{output}' (declared twice by node '{node.name}')\n\n"
+                    f"  -> A node's outputs must have distinct names: the second value would silently overwrite the first\n\n"
+                    f"How to fix:\n"
+                    f"  Give each output its own name"
+                )
+            seen.add(output)
 
 
 def _validate_no_namespace_collision(nodes: dict[str, HyperNode]) -> None:
